@@ -142,7 +142,7 @@ theorem toTemplate_some {nsAe : Autoescape} {x : Bool} {c : Cmd} {sc : Scope} {r
 
 /-- PARTIAL (generator ↔ function AST): the walk over the soydoc / template nodes of a file writes exactly the
     functions of the translation, one after the other, and leaves the scope the translation computes -/
-theorem walkTop_renders (nsAe : Autoescape) : ∀ (cmds : List Cmd) (buf : Bytes) (sc : Scope) (r : List JsFunc × Scope),
+theorem walkTop_renders (ho : o.messages = none) (nsAe : Autoescape) : ∀ (cmds : List Cmd) (buf : Bytes) (sc : Scope) (r : List JsFunc × Scope),
     toTop nsAe cmds sc = some r →
     ∀ ind, Runs (At ind buf nsAe sc) (AtF ind nsAe r.2) (walkTop sk o cmds) (r.1.flatMap (renderFunc (isEs6 o) ind))
   | [], buf, sc, r, h, ind => by
@@ -159,9 +159,9 @@ theorem walkTop_renders (nsAe : Autoescape) : ∀ (cmds : List Cmd) (buf : Bytes
         obtain ⟨p', name, body, ae', y, rb, rfl, hrb, rfl⟩ := toTemplate_some h1
         unfold walkTop
         unfold walkTop
-        have hb := walkBody_renders sk o (aeOf ae' nsAe) body sOutputVar sc.push rb hrb (ind + 1)
+        have hb := walkBody_renders sk o (aeOf ae' nsAe) ho body sOutputVar sc.push rb hrb (ind + 1)
         have ht := template_runs sk o (buf := buf) p' name body ae' y (.soydoc params) rb hb
-        exact (Runs.seq (Runs.soyDoc sk o p params) (Runs.seq ht (walkTop_renders nsAe rest sOutputVar _ r2 h2 ind))).cast
+        exact (Runs.seq (Runs.soyDoc sk o p params) (Runs.seq ht (walkTop_renders ho nsAe rest sOutputVar _ r2 h2 ind))).cast
           (by simp)
       · cases h
     · cases h
@@ -215,13 +215,13 @@ def toFile (f : SoyFile) : Option (List JsFunc × Scope) :=
 
 /-- PARTIAL (generator ↔ function AST, file level): what the generator model writes for a file of the fragment ENDS
     with the functions of the translation (before them: the two comment lines and the namespace declarations) -/
-theorem visitSoyFile_renders (f : SoyFile) (r : List JsFunc × Scope) (h : toFile f = some r) :
+theorem visitSoyFile_renders (ho : o.messages = none) (f : SoyFile) (r : List JsFunc × Scope) (h : toFile f = some r) :
     ∃ pre s', visitSoyFile sk o f initState = .ok ((), pre ++ r.1.flatMap (renderFunc (isEs6 o) 0), s') ∧ s'.scope = r.2 := by
   unfold toFile at h
   split at h
   · rename_i p name ae' rest hbody
     obtain ⟨nps, hn⟩ := namespace_runs sk o (ind := 0) (buf := []) (ae := .unspecified) (sc := ⟨[[]], 0⟩) p name ae'
-    have ht := walkTop_renders sk o ae' rest [] _ r h 0
+    have ht := walkTop_renders sk o ho ae' rest [] _ r h 0
     have hall : Runs (At 0 [] .unspecified ⟨[[]], 0⟩) (AtF 0 ae' r.2) (visitSoyFile sk o f)
         (([.fixed (spaces 0), .fixed b!"// This file was automatically generated from ", .comment f.name, .fixed b!".", .fixed [10],
           .fixed (spaces 0), .fixed b!"// Please don't edit this file by hand.", .fixed [10], .fixed (spaces 0), .fixed [10]] ++ nps) ++
@@ -323,7 +323,7 @@ theorem mem_of_lookup {name : Bytes} {t : Registry.Tmpl} (h : Registry.lookup re
   List.mem_of_find?_eq_some h
 
 /-- on directive-free templates the reference's call renders only what Spec/Eval.renderTmpl renders -/
-theorem refCall_le (hesc : EscapeHtmlIs F) (hplain : ∀ t ∈ reg, plainBlock t.body = true) (hasBundle : Bool) :
+theorem refCall_le (hesc : EscapeHtmlIs F) (hasBundle : Bool) (hplain : ∀ t ∈ reg, plainBlock hasBundle t.body = true) :
     ∀ (d : Nat) (name : Bytes) (t : Registry.Tmpl) (ce : Spec.Eval.CallEnv) (out : Bytes), Registry.lookup reg name = some t →
       refCall F reg d t ce = .val out → Spec.Eval.renderTmpl reg hasBundle none d t ce = .val out
   | 0, _, _, _, _, _, h => by simp [refCall] at h
@@ -335,15 +335,15 @@ theorem refCall_le (hesc : EscapeHtmlIs F) (hplain : ∀ t ∈ reg, plainBlock t
       cases hbody : t.body with
       | mk p cmds => rw [hbody] at h; simpa [refBlock, blockCmds] using h
     exact ref_le_spec_block F (tmplAe t) hesc reg hasBundle ce.entry (refCall F reg d) (Spec.Eval.renderTmpl reg hasBundle none d)
-      (fun name t ce out hl h => refCall_le hesc hplain hasBundle d name t ce out hl h) t.body _ out
+      (fun name t ce out hl h => refCall_le hesc hasBundle hplain d name t ce out hl h) t.body _ out
       (hplain t (mem_of_lookup reg hl)) hb
 
 /-- PARTIAL (C04, a whole registry).  `table`: the generated functions (`TableOk`); every template without print
     directives (`hplain`), soy.$$escapeHtml read as `htmlEscape ∘ ToString` (`hesc`, a library obligation).  When
     the generated function `name`, called on the JSON image of `data` — its calls served by the table, to depth `d`
     — returns `r`, then Spec/Eval.render renders the template `name` on `data` (same depth), and `r` is this text. -/
-theorem gen_correct_registry_partial (hesc : EscapeHtmlIs F) (hplain : ∀ t ∈ reg, plainBlock t.body = true)
-    (htab : TableOk reg table) (globals : Spec.Eval.Binds) (ij : Option Spec.Eval.Binds) (msgs : Bool) (name : Bytes)
+theorem gen_correct_registry_partial (hesc : EscapeHtmlIs F) (msgs : Bool) (hplain : ∀ t ∈ reg, plainBlock msgs t.body = true)
+    (htab : TableOk reg table) (globals : Spec.Eval.Binds) (ij : Option Spec.Eval.Binds) (name : Bytes)
     (data : Spec.Eval.Binds) (jd : List (Bytes × JVal)) (hj : C04c.toJsKvs data = some jd) (d : Nat) (r : JVal)
     (hx : callFn F table fuel d name (.obj jd) = .val r) :
     ∃ text, Spec.Eval.render reg globals ij msgs name data d = .val text ∧ r = .str text := by
@@ -352,13 +352,13 @@ theorem gen_correct_registry_partial (hesc : EscapeHtmlIs F) (hplain : ∀ t ∈
   refine ⟨out, ?_, rfl⟩
   have hlk' : Registry.lookup reg name = some callee := hlk
   simp only [Spec.Eval.render, hlk']
-  exact refCall_le F reg hesc hplain msgs d name callee _ out hlk' hc
+  exact refCall_le F reg hesc msgs hplain d name callee _ out hlk' hc
 
 /-- the same for a list of commands met inside a template: `gen_correct_cmds_spec` with the table for the oracle and
     Spec/Eval.renderTmpl for the call -/
-theorem gen_correct_registry_cmds_partial (hesc : EscapeHtmlIs F) (hplain : ∀ t ∈ reg, plainBlock t.body = true)
-    (htab : TableOk reg table) (hasBundle : Bool) (d : Nat) (ae : Autoescape) (buf : Bytes) (entry : Spec.Eval.Binds)
-    (cmds : CmdList) (hpl : plainCmds cmds = true) (sc : Scope) (r : JsStmts × Scope) (h : toCmds ae buf cmds sc = some r)
+theorem gen_correct_registry_cmds_partial (hesc : EscapeHtmlIs F) (hasBundle : Bool)
+    (hplain : ∀ t ∈ reg, plainBlock hasBundle t.body = true) (htab : TableOk reg table) (d : Nat) (ae : Autoescape) (buf : Bytes) (entry : Spec.Eval.Binds)
+    (cmds : CmdList) (hpl : plainCmds hasBundle cmds = true) (sc : Scope) (r : JsStmts × Scope) (h : toCmds ae buf cmds sc = some r)
     (env : SEnv) (jenv jenv' : JEnv) (out : Bytes) (hs : ScOk sc) (hg : GoodBuf sc buf) (hrel : EnvRel entry sc env jenv)
     (hb : BufIs buf jenv out) (fuel' : Nat) (hx : execStmts F (callFn F table fuel d) fuel' r.1 jenv = .ok jenv') :
     ∃ text, Spec.Eval.renderCmds reg hasBundle (ae != .off) entry (Spec.Eval.renderTmpl reg hasBundle none d) none cmds env = .val text ∧
@@ -366,7 +366,7 @@ theorem gen_correct_registry_cmds_partial (hesc : EscapeHtmlIs F) (hplain : ∀ 
   obtain ⟨text, ht, hb', _⟩ := cmds_ok F (callFn F table fuel d) ⟨reg, entry, refCall F reg d⟩ ae
     (calls_table_correct F reg table fuel htab d entry).1 cmds buf fuel' sc r env jenv jenv' out h hs hg hrel hb hx
   exact ⟨text, ref_le_spec_cmds F ae hesc reg hasBundle entry (refCall F reg d) (Spec.Eval.renderTmpl reg hasBundle none d)
-    (fun name t ce out hl h => refCall_le F reg hesc hplain hasBundle d name t ce out hl h) cmds env text hpl ht, hb'⟩
+    (fun name t ce out hl h => refCall_le F reg hesc hasBundle hplain d name t ce out hl h) cmds env text hpl ht, hb'⟩
 
 /-- PARTIAL (C04, a whole registry, the converse — at the level of the reference semantics): where the reference
     renders the template `name` on `data` (calls to depth `d`), the generated function returns this text or leaves
@@ -396,15 +396,16 @@ theorem gen_complete_registry_partial (htab : TableOk reg table) (name : Bytes) 
     above against the reference `refCall` only — the step from the reference to Spec/Eval needs that the reference stops
     with an ERROR, not with `unspec`, wherever the JavaScript throws, which the `…_ne` lemmas of Props/C04e do not say).
     The value case needs no hypothesis: a returned text is Spec/Eval's. -/
-theorem gen_complete_registry_spec_partial (hesc : EscapeHtmlIs F) (hplain : ∀ t ∈ reg, plainBlock t.body = true)
-    (htab : TableOk reg table) (globals : Spec.Eval.Binds) (ij : Option Spec.Eval.Binds) (msgs : Bool) (name : Bytes)
+theorem gen_complete_registry_spec_partial (hesc : EscapeHtmlIs F) (msgs : Bool)
+    (hplain : ∀ t ∈ reg, plainBlock msgs t.body = true)
+    (htab : TableOk reg table) (globals : Spec.Eval.Binds) (ij : Option Spec.Eval.Binds) (name : Bytes)
     (data : Spec.Eval.Binds) (jd : List (Bytes × JVal)) (hj : C04c.toJsKvs data = some jd) (d : Nat)
     (hthrow : CallRelE (callFn F table fuel d) ⟨reg, data, Spec.Eval.renderTmpl reg msgs none d⟩)
     (text : Bytes) (ht : Spec.Eval.render reg globals ij msgs name data d = .val text) :
     callFn F table fuel d name (.obj jd) = .val (.str text) ∨ callFn F table fuel d name (.obj jd) = .unspec := by
   cases hx : callFn F table fuel d name (.obj jd) with
   | val r =>
-    obtain ⟨text', ht', rfl⟩ := gen_correct_registry_partial F reg table fuel hesc hplain htab globals ij msgs name data jd hj d r hx
+    obtain ⟨text', ht', rfl⟩ := gen_correct_registry_partial F reg table fuel hesc msgs hplain htab globals ij name data jd hj d r hx
     rw [ht] at ht'
     simp only [Out.val.injEq] at ht'
     subst ht'
@@ -516,12 +517,13 @@ theorem tableOk_of_file (f : SoyFile) (r : List JsFunc × Scope) (h : toFile f =
     JSON image of `data` is what Spec/Eval.render renders for the template `name` of the file on `data`.  Hypotheses:
     no print directives in the file (`hplain`), soy.$$escapeHtml is `htmlEscape ∘ ToString` (`hesc`). -/
 theorem gen_correct_file_partial (F : Bytes → List Expr → JVal → JOut) (fuel : Nat) (hesc : EscapeHtmlIs F) (f : SoyFile)
-    (rr : List JsFunc × Scope) (hfile : toFile f = some rr) (hplain : ∀ t ∈ regOfFile f, plainBlock t.body = true)
-    (globals : Spec.Eval.Binds) (ij : Option Spec.Eval.Binds) (msgs : Bool) (name : Bytes)
+    (rr : List JsFunc × Scope) (hfile : toFile f = some rr) (msgs : Bool)
+    (hplain : ∀ t ∈ regOfFile f, plainBlock msgs t.body = true)
+    (globals : Spec.Eval.Binds) (ij : Option Spec.Eval.Binds) (name : Bytes)
     (data : Spec.Eval.Binds) (jd : List (Bytes × JVal)) (hj : C04c.toJsKvs data = some jd) (d : Nat) (r : JVal)
     (hx : callFn F rr.1 fuel d name (.obj jd) = .val r) :
     ∃ text, Spec.Eval.render (regOfFile f) globals ij msgs name data d = .val text ∧ r = .str text :=
-  gen_correct_registry_partial F (regOfFile f) rr.1 fuel hesc hplain (tableOk_of_file f rr hfile) globals ij msgs name data jd hj d r hx
+  gen_correct_registry_partial F (regOfFile f) rr.1 fuel hesc msgs hplain (tableOk_of_file f rr hfile) globals ij name data jd hj d r hx
 
 /-! ## non-vacuity -/
 
@@ -570,8 +572,8 @@ def plainFile : SoyFile :=
         (.cons (.print 0 (.dataRef 0 b!"c" .nil) []) (.cons (.rawText 0 b!":")
         (.cons (.print 0 (.dataRef 0 b!"a" .nil) []) .nil)))))) .unspecified false] }
 
-theorem plainFile_plain : ∀ t ∈ regOfFile plainFile, plainBlock t.body = true := by
-  have h : (regOfFile plainFile).all (fun t => plainBlock t.body) = true := by decide +kernel
+theorem plainFile_plain : ∀ t ∈ regOfFile plainFile, plainBlock false t.body = true := by
+  have h : (regOfFile plainFile).all (fun t => plainBlock false t.body) = true := by decide +kernel
   exact fun t ht => List.all_eq_true.mp h t ht
 
 -- the generated functions and Spec/Eval.render on the file: the content param is escaped once more by the callee
@@ -589,7 +591,7 @@ example : (match Spec.Eval.render (regOfFile plainFile) [] none false b!"sem.t" 
 example (a : Int) (ha : SoyVerif.Spec.JsSem.exact a = true) (rr : List JsFunc × Scope) (hfile : toFile plainFile = some rr)
     (r : JVal) (hx : callFn sampleF rr.1 10 3 b!"sem.t" (.obj [(b!"a", .num a)]) = .val r) :
     ∃ text, Spec.Eval.render (regOfFile plainFile) [] none false b!"sem.t" [(b!"a", .int a)] 3 = .val text ∧ r = .str text :=
-  gen_correct_file_partial sampleF 10 sampleF_escape plainFile rr hfile plainFile_plain [] none false b!"sem.t" _ _
+  gen_correct_file_partial sampleF 10 sampleF_escape plainFile rr hfile false plainFile_plain [] none b!"sem.t" _ _
     (by simp [C04c.toJsKvs, C04c.toJsV, ha]) 3 r hx
 
 end SoyVerif.Props.C04f
